@@ -170,10 +170,19 @@ def _selftest(ctx, events, rejected):
     def nonempty(e, n=1):
         return [i for i, b in enumerate(e['bins']) if len(b['x']) >= n]
 
-    e = sl[0]                       # two events of one bin swapped in the result
-    i = nonempty(e, 2)[0]
-    e['bins'][i]['r'][0], e['bins'][i]['r'][1] = e['bins'][i]['r'][1], e['bins'][i]['r'][0]
-    expect[e['tid']] = after('event_value_differs_from_dense', e)
+    def disjoint(a, b):             # candidate-id sets the judge can tell apart (ties share ids: item 11)
+        return not any(x in b for x in a)
+
+    # two events of one bin swapped in the result: only where the two have different dense values
+    swap = [(k, i) for k, e in enumerate(sl) if k == 0 or k > 5 for i in nonempty(e, 2)
+            if disjoint(e['bins'][i]['r'][0], e['bins'][i]['r'][1])]
+    used = set(range(1, 6))
+    if swap:
+        k, i = swap[0]
+        e = sl[k]
+        used.add(k)
+        e['bins'][i]['r'][0], e['bins'][i]['r'][1] = e['bins'][i]['r'][1], e['bins'][i]['r'][0]
+        expect[e['tid']] = after('event_value_differs_from_dense', e)
     e = sl[1]                       # an event moved to another bin
     i, j = nonempty(e)[:2]
     for col in ('r', 'w', 'v', 'x'):
@@ -194,7 +203,8 @@ def _selftest(ctx, events, rejected):
     e = sl[5]
     e['same']['masks'] = False
     expect[e['tid']] = after('masks_changed', e)
-    pt = [x for x in sl[6:] if x['kind'] == 'pt' and x['R'] >= 2]
+    pt = [x for k, x in enumerate(sl) if k > 5 and k not in used and x['kind'] == 'pt' and x['R'] >= 2
+          and any(disjoint(a, b) for a, b in zip(x['edges'][0], x['edges'][1], strict=False))]
     if pt:                          # edges of two pixels exchanged
         e = pt[0]
         e['edges'][0], e['edges'][1] = e['edges'][1], e['edges'][0]
@@ -380,6 +390,7 @@ def run(ctx):
             ctx.violation(_key(meta, clause), {
                 'case': c, 'clause': clause, 'meta': meta, 'event': ev, 'seed': ctx.seed,
                 'reproduce': 'harness.lib_convert.run_event_case(case, seed)'})
+    _gravity_event_block(ctx)
     try:
         _selftest(ctx, events, rejected)
     except MachineryError:
@@ -392,6 +403,123 @@ def run(ctx):
         ctx.extra['trace_selftest'] = 'inconclusive on a tree with violations'
     if not any(e['out'] == 'ok' for e in events):
         raise MachineryError('vacuous run: no conversion returned')
+
+
+def _gravity_event_block(ctx):
+    """Event mode of the gravity kernels of conversion/beamline.py (scattering_angles_with_gravity,
+    scattering_angle_in_yz_plane), which take the event coordinate `wavelength` as an operand: every event gets
+    exactly the value the dense conversion gives for its wavelength and its pixel's beams, the bin-edge
+    coordinate is converted with the same function, and the input (also when its wavelength is stored in the
+    very unit the kernel works in: metres) is what it was.  Layouts: 2-d grids pixel x wavelength bin with
+    empty / uneven bins and unreferenced slots."""
+    import numpy as np
+    import scipp as sc
+    from scippneutron.conversion.beamline import scattering_angle_in_yz_plane, scattering_angles_with_gravity
+
+    rng = np.random.default_rng(ctx.seed + 606)      # own stream: the driver's rng sequence stays as it was
+    n_cases = 120 if ctx.thorough else 36
+    done = 0
+    for c in range(n_cases):
+        wl_unit = ('m', 'angstrom', 'nm', 'mm', 'm', 'um')[c % 6]
+        len_unit = ('m', 'mm', 'm', 'cm')[(c // 2) % 4]
+        dt = 'float32' if c % 5 == 3 else 'float64'
+        kernel = 'yz' if c % 3 == 2 else 'with_gravity'
+        npix, nb = int(rng.integers(1, 5)), int(rng.integers(1, 4))
+        sizes = rng.integers(0, 5, size=(npix, nb))
+        if c % 4 == 0:
+            sizes[rng.integers(0, npix), :] = 0
+        gap = int(rng.integers(0, 3))                               # unreferenced slots in front
+        n_ev = gap + int(sizes.sum()) + int(rng.integers(0, 2))
+        end = (gap + np.cumsum(sizes.reshape(-1))).reshape(npix, nb)
+        begin = end - sizes
+        wl_m = rng.uniform(0.5e-10, 12e-10, n_ev)
+        wav = sc.array(dims=['event'], values=wl_m, unit='m').to(unit=wl_unit).to(dtype=dt)
+        buf = sc.DataArray(
+            sc.array(dims=['event'], values=rng.uniform(0.5, 2.0, n_ev), variances=rng.uniform(0.1, 0.3, n_ev), unit='counts'),
+            coords={'wavelength': wav, 'pulse': sc.arange('event', n_ev, unit=None)})
+        b2 = rng.uniform(-1.0, 1.0, (npix, 3)) * [0.6, 0.6, 0.0] + [0.0, 0.0, 1.0]
+        b2 *= rng.uniform(2.0, 6.0, (npix, 1))
+        scat = sc.vectors(dims=['spectrum'], values=b2, unit='m').to(unit=len_unit)
+        inc = sc.vector([0.0, 0.0, float(rng.uniform(5, 30))], unit='m').to(unit=len_unit)
+        grav = sc.vector([0.0, -9.80665, 0.0], unit='m/s^2')
+        edges = sc.array(dims=['wavelength'], values=np.linspace(0.4e-10, 13e-10, nb + 1), unit='m').to(unit=wl_unit).to(dtype=dt)
+        geo = {'incident_beam': inc, 'gravity': grav}
+        da = sc.DataArray(
+            sc.bins(data=buf, dim='event', begin=sc.array(dims=['spectrum', 'wavelength'], values=begin, unit=None, dtype='int64'),
+                    end=sc.array(dims=['spectrum', 'wavelength'], values=end, unit=None, dtype='int64')),
+            coords={'wavelength': edges, 'scattered_beam': scat, **geo,
+                    'temperature': sc.array(dims=['spectrum'], values=rng.uniform(270, 290, npix), unit='K')},
+            masks={'bad': sc.array(dims=['spectrum'], values=rng.random(npix) < 0.3)})
+        if kernel == 'yz':
+            graph, targets = {'theta': scattering_angle_in_yz_plane}, ['theta']
+        else:
+            graph, targets = {('two_theta', 'phi'): scattering_angles_with_gravity}, ['two_theta', 'phi']
+        tag = f'gravity kernel {kernel} in event mode'
+        detail = {'wavelength_unit': wl_unit, 'length_unit': len_unit, 'dtype': dt, 'sizes': sizes.tolist(), 'gap': gap, 'case': c}
+        snap = da.copy(deep=True)
+        # the dense references first (so that a kernel that spoils its operands cannot spoil them afterwards)
+        order = [k for i in range(npix) for j in range(nb) for k in range(begin[i, j], end[i, j])]
+        pix_of = [i for i in range(npix) for j in range(nb) for _ in range(begin[i, j], end[i, j])]
+        wl_in_order = np.asarray(wav.values)[order] if order else np.zeros(0, dtype=dt)
+
+        def bins_of(x):
+            d0, d1 = x.dims        # transform_coords may rename the bin dimension (wavelength -> theta)
+            return [x[d0, i][d1, j].value for i in range(npix) for j in range(nb)]
+
+        try:
+            per_event = sc.DataArray(
+                sc.zeros(dims=['event'], shape=[len(order)]),
+                coords={'wavelength': sc.array(dims=['event'], values=wl_in_order, unit=wl_unit, dtype=dt),
+                        'scattered_beam': sc.vectors(dims=['event'], values=np.asarray(scat.values)[pix_of].reshape(-1, 3), unit=len_unit),
+                        'incident_beam': inc.copy(), 'gravity': grav.copy()}).transform_coords(targets, graph=graph)
+            grid = sc.DataArray(
+                sc.zeros(dims=['spectrum', 'wavelength'], shape=[npix, nb]),
+                coords={'wavelength': edges.copy(), 'scattered_beam': scat.copy(), 'incident_beam': inc.copy(),
+                        'gravity': grav.copy()}).transform_coords(targets, graph=graph)
+            out = da.transform_coords(targets, graph=graph)
+        except Exception as e:  # noqa: BLE001  (a refusal is an observation, not judged here)
+            ctx.extra.setdefault('gravity_event_refusals', []).append(f'{type(e).__name__}: {str(e)[:120]}')
+            continue
+        done += 1
+        ctx.case(nontrivial_id=('gravity-event', kernel, wl_unit, len_unit, dt, npix, nb))
+        if not sc.identical(da, snap):
+            ctx.violation(f'{tag}: input_modified', detail)
+        obins, ibins = bins_of(out), bins_of(snap)
+        sizes_ok = [len(o.data.values) for o in obins] == [int(x) for x in sizes.reshape(-1)]
+        if not sizes_ok:
+            ctx.violation(f'{tag}: bin_membership_changed', detail)
+            continue
+        offs = np.concatenate([[0], np.cumsum(sizes.reshape(-1))])
+        for t in targets:
+            try:
+                want = per_event.coords[t]
+                ok = all(o.coords[t].unit == want.unit and o.coords[t].dtype == want.dtype
+                         and np.array_equal(o.coords[t].values, want.values[offs[k]:offs[k + 1]], equal_nan=True)
+                         for k, o in enumerate(obins))
+            except Exception:  # noqa: BLE001
+                ok = False
+            if not ok:
+                ctx.violation(f'{tag}: event_value_differs_from_the_dense_conversion ({t})', detail)
+            try:
+                e_got, e_want = out.coords[t], grid.coords[t]
+                ok = (e_got.unit == e_want.unit and set(e_got.dims) == set(e_want.dims)
+                      and np.array_equal(e_got.transpose(e_want.dims).values, e_want.values, equal_nan=True))
+            except Exception:  # noqa: BLE001
+                ok = False
+            if not ok:
+                ctx.violation(f'{tag}: bin_edge_coordinate_not_converted_like_dense_data ({t})', detail)
+        if not all(sc.identical(o.data, i_.data) for o, i_ in zip(obins, ibins, strict=True)):
+            ctx.violation(f'{tag}: event_weights_changed', detail)
+        if not all(sc.identical(o.coords['pulse'], i_.coords['pulse']) for o, i_ in zip(obins, ibins, strict=True)):
+            ctx.violation(f'{tag}: unrelated_event_coordinate_changed', detail)
+        if not all('wavelength' not in o.coords or sc.identical(o.coords['wavelength'], i_.coords['wavelength'])
+                   for o, i_ in zip(obins, ibins, strict=True)):
+            ctx.violation(f'{tag}: event_wavelength_of_the_result_changed', detail)
+        if not (sc.identical(out.masks['bad'], snap.masks['bad']) and sc.identical(out.coords['temperature'], snap.coords['temperature'])):
+            ctx.violation(f'{tag}: mask_or_unrelated_coordinate_changed', detail)
+    ctx.extra['gravity_event_cases'] = done
+    if done < n_cases // 2:
+        raise MachineryError(f'gravity kernels in event mode: only {done} of {n_cases} cases converted')
 
 
 META = {
